@@ -778,6 +778,8 @@ class Verifier(Engine):
             return self.new_set(h)
         if name == "max" and "key" in kwargs:
             return self.max_by_key(args[0], kwargs["key"])
+        if name in ("min", "max") and len(args) == 1 and not kwargs:
+            return self.extremum(args[0], name)
         if name == "open":
             return self.call_ext("open", None, args, kwargs)
         if name == "hash":
@@ -905,6 +907,28 @@ class Verifier(Engine):
         if h is not None and h.kind == kind and sort_of(h.elem) == sort_of(elem):
             return h
         return Ty(kind, elem)
+
+    def extremum(self, seq, which):
+        """min(seq) / max(seq) of a sequence of ints: an element of the sequence bounding all others."""
+        seqv = self.as_seq(seq)
+        if seqv.ty.elem.kind != "int":
+            raise Unsupported("%s() of a non-int sequence" % which)
+        n = self.seq_len(seqv)
+        self.oblige("ValueError: %s() of an empty sequence" % which, "safety", n > 0)
+        j = self.fresh("arg" + which, z3.IntSort())
+        res = self.seq_at(seqv, j)
+        i = self.fresh("i", z3.IntSort())
+        self.quant_depth += 1
+        self.bound_stack.append(i)
+        try:
+            el = self.seq_at(seqv, i)
+        finally:
+            self.quant_depth -= 1
+            self.bound_stack.pop()
+        self.assume(AND(j >= 0, j < n))
+        self.assume(z3.ForAll([i], z3.Implies(AND(i >= 0, i < n), (res.t <= el.t) if which == "min" else (el.t <= res.t))))
+        self.assume_type(res)
+        return res
 
     def max_by_key(self, seq, keyfn):
         seqv = self.as_seq(seq)
